@@ -25,8 +25,8 @@ def main(pid):
     if pid == 'C09':
         jobs = [dict(kind='merge', max_parts=maxp, fixed=dict(parts=k, naming=nm), deadline_s=dl) for k in range(1, maxp + 1) for nm in c09.NAMINGS] + [dict(kind='refusal', deadline_s=dl)]
         rep.bounds = dict(parts=f'1..{maxp}', sizes='1 or 2 trajectories per part', naming=list(c09.NAMINGS), how='explicit list; numbered pattern for the unpadded-number names',
-                          identifiers='distinct solver integers (every relative order) or none', associated='without, or every part created with an associated file, the associated files merged into a second store and opened together with the merged base store', refusals='different field sets, mixed identification, same file name in two directories, missing input, wrong extension, existing output')
-        rep.outside = ['more than one associated store per base store', f'more than {maxp} parts', 'parts with more than 2 trajectories (sizes are covered for all values by the C07 kernel)']
+                          identifiers='distinct solver integers (every relative order) or none', associated='without, or every part created with one or with two associated files (one field set each); each family of associated files merged into its own store and all of them opened together with the merged base store', refusals='different field sets, mixed identification, same file name in two directories, missing input, wrong extension, existing output')
+        rep.outside = ['more than two associated stores per base store', f'more than {maxp} parts', 'parts with more than 2 trajectories (sizes are covered for all values by the C07 kernel)']
     else:
         jobs = [dict(kind='reject', n_adds=2 if tier == 'quick' else 3, deadline_s=dl), dict(kind='crash', deadline_s=dl), dict(kind='refusal', deadline_s=dl)]
         rep.bounds = dict(rejected_add=f'every kind in {c10.KINDS} at every position of a sequence of {2 if tier == "quick" else 3} additions, in create, append and in-memory sessions, identified and unidentified stores',
